@@ -448,7 +448,8 @@ func c04Run(t *testing.T, c *choice.Stream, r *Result, opt RunOpt, forced *c04Fo
 				inj = simnet.Step{Label: "exception", Send: (&SPacket{Kind: "exception", Exc: DrawExceptionChain(c)}).Encode(cf)}
 			case "bad_code":
 				var w refproto.W
-				w.UVarint(uint64(c.Pick("badcode", 15, 99, 127, 128, 200, 300, 16384)))
+				// unknown codes, among them ones whose low byte is a code the client knows
+				w.UVarint(uint64(c.Pick("badcode", 15, 99, 127, 128, 200, 300, 16384, 256+5, 256+2, 256+1, 256+3, 512+5, 256+4, 65536+5)))
 				inj = simnet.Step{Label: "bad_code", Send: w.B}
 			default:
 				b, name := drawUnexpected(c, cf)
@@ -526,6 +527,14 @@ func c04Run(t *testing.T, c *choice.Stream, r *Result, opt RunOpt, forced *c04Fo
 			info.clientBytes = conn.OutLen() - before
 			info.calls = sc.rec.Calls
 			if derr == nil {
+				if faultName == "bad_code" {
+					for _, l := range srv.Sent {
+						if l == "bad_code" {
+							r.Violate("unknown-packet-accepted", "unknown-code-accepted", "the server sent an unknown packet code in the middle of the response and Do returned nil")
+							return
+						}
+					}
+				}
 				r.Probe("fault_did_not_fire")
 				return
 			}
